@@ -109,7 +109,7 @@ structure SimRes (σ : Type) where
 
 def idOf (ids : List (Nat × Nat)) (k : Nat) : Nat := ((ids.find? (fun p => p.1 == k)).map (·.2)).getD 0
 
-def simImpl (ops : List Op) : SimRes (Impl.State St) := Id.run do
+def simWith (stepf : Impl.State St → Msg St → Impl.State St) (ops : List Op) : SimRes (Impl.State St) := Id.run do
   let mut s : Impl.State St := Impl.init .none
   let mut chars : List (Nat × String) := []
   let mut ids : List (Nat × Nat) := []
@@ -122,7 +122,7 @@ def simImpl (ops : List Op) : SimRes (Impl.State St) := Id.run do
     else
       match o with
       | .upd c e =>
-        let s' := Impl.step s (.update e.eval [])
+        let s' := stepf s (.update e.eval [])
         let ch := match (Impl.replies s').getLast? with
           | some true => "1"
           | _ => "0"
@@ -130,18 +130,20 @@ def simImpl (ops : List Op) : SimRes (Impl.State St) := Id.run do
         s := s'
       | .obs c k e cb _ =>
         ids := ids ++ [(k, s.lastID + 1)]
-        s := Impl.step s (.add e.eval cb)
+        s := stepf s (.add e.eval cb)
         chars := chars ++ [(c, ".")]
       | .cancel c k =>
-        s := Impl.step s (.remove (idOf ids k))
+        s := stepf s (.remove (idOf ids k))
         chars := chars ++ [(c, ".")]
       | .hangup c =>
-        s := Impl.step s (.hangup [])
+        s := stepf s (.hangup [])
         chars := chars ++ [(c, ".")]
   if !aborted && s.status != .running then
     chars := chars ++ [(0, "T")]       -- the barrier before Stop times out
     aborted := true
   pure ⟨s, chars, ids, aborted⟩
+
+def simImpl (ops : List Op) : SimRes (Impl.State St) := simWith Impl.step ops
 
 def simSpec (ops : List Op) : SimRes (Spec.State St) := Id.run do
   let mut s : Spec.State St := Spec.init .none
@@ -195,7 +197,10 @@ def renderSpec (par : Bool) (nClients : Nat) (payloadOps serial : List Op) : Str
     s!"{k}:" ++ renderLog m before after)
   "|".intercalate (renderReplies par nClients r.chars :: logs)
 
-def wedges (serial : List Op) : Bool := (simImpl serial).aborted
+/-- class predicate of finding KF-engine-reentrant-cancel: the loop *before* the re-entrant-cancel repair
+(`Prev`) wedges on this serialisation, i.e. a callback whose script says `reenter` is actually invoked.
+On a tree with the repair these cases behave as the specification demands. -/
+def wedges (serial : List Op) : Bool := (simWith Prev.step serial).aborted
 
 def kfReenter : String := "KF-engine-reentrant-cancel"
 
@@ -340,8 +345,11 @@ def corpus : List Case :=
     -- state-dependent failure, cancel after failure, hang-up, observers after hang-up
     mkSeq "C17-corpus-4" "corpus" [.upd 0 (.lit 0), .obs 1 1 .evenOnly [] .L, .obs 2 2 .cur [] .L, .upd 0 (.plus 1),
       .cancel 1 1, .upd 0 (.plus 1), .hangup 0, .obs 1 3 .dbl [] .L, .upd 0 (.plus 1), .upd 0 .fail, .cancel 2 2],
-    -- open finding: cancel called from inside the observer's own callback
+    -- KF-engine-reentrant-cancel: cancel called from inside the observer's own callback
     mkSeq "C17-corpus-5" "corpus" [.upd 0 (.lit 0), .obs 1 1 .cur [.ok, .reenter] .L, .obs 1 2 .cur [] .L, .upd 0 (.plus 1), .upd 0 (.plus 1)],
+    -- the same, then cancelled from outside as well (twice), by two clients
+    mkSeq "C17-corpus-7" "corpus" [.upd 0 (.lit 0), .obs 1 1 .cur [.ok, .reenter] .L, .upd 0 (.plus 1), .cancel 1 1, .cancel 2 1,
+      .obs 2 2 .cur [.ok, .reenter] .L, .upd 0 (.plus 1), .upd 0 (.plus 1)],
     -- concurrent clients: failing observers, double cancel from two clients
     mkPar "C17-corpus-6" "corpus-par"
       [.upd 0 (.lit 0), .obs 0 1 .cur [] .E, .obs 0 2 .cur [] .F, .obs 0 3 .cur [.ok, .ok, .err] .N]
